@@ -48,11 +48,33 @@ CLAIMS = {
   text="Proof (partial): (*VMValue).UnmarshalJSON ensures err == nil ==> wfValue(v) with the type tag among the ten known ones and no nil array element, for every input and every path (each return is a separate obligation); the decoder may leave *v ill-formed only when it returns an error (exempt clause). Operations on decoded values are covered by the C01 obligations, whose only assumption on values is the same invariant.",
   note="ValueMap.UnmarshalJSON (dict values) is outside the subset (sync/atomic); its null check is covered only by the structure of the fix. json.Unmarshal is an assumed external. The crash-freedom of built-in methods on decoded values is covered as far as C01 covers those functions.",
   ref="DESIGN.md §3 C10"),
+ "C03": dict(
+  text="Proof (partial) of the compiler half: failure atomicity of the grammar. pigeon restores the text position but not the code buffer when a sequence fails, so for every sequence element of every rule that runs in action mode the obligation `cannot fail after an earlier element of its sequence emitted code` is decided structurally on the grammar table g extracted from roll.peg.go on every run (look-ahead guards `&X X`, `&&(X) X`, guard items threaded into rule bodies and out of nested groups, flag writes voiding guards, parse-error predicates aborting the parse). Structurally failing obligations get a witness search: candidate inputs derived from the grammar are run on the real parser (instrumented by overlay so that the failing element is known) and a witness is an input whose compiled code differs from the code of its matched text; only confirmed witnesses are reported.",
+  note="Assumption A_det: matching is a function of position and flags and is the same in look-ahead and in the real run. 18 obligations are known findings (stale code, with witnesses); 29 structurally failing obligations have no witness and are reported as undecided, not claimed. Not covered: RunAfterParsed's Matched+RestInput string identity (strings are uninterpreted), equality of detail text and variable effects of Matched alone (follows from equal code only).",
+  ref="DESIGN.md §3 C03", tech="contract-based: rule contract `!ok ==> parser data unchanged` decided per sequence element on the extracted PEG table; witness search replays candidate inputs on the real parser"),
+ "C08": dict(
+  text="Proof (partial): ghost typing of the compiler. Every grammar rule and every semantic action / ParserData helper is interpreted over an abstract state (operand-stack height as an affine form over repetition counts, open block/template/dice nesting with saved heights, mark.detail, jump-patching stack with the state on each taken branch, counter stack, name stack, break/continue sets, nested code buffers); rule summaries are computed to a fixpoint and applied at references. 463 obligations: operands present at every emitted instruction, count operands of push.array/push.dict/invoke/ld.fs equal to the values pushed, jump sources and targets agree on nesting and height, alternatives agree, repetition bodies are iteration-independent, buffers end balanced. Opcode stack effects are read from specPops/specPushes/specNeedsDetail/specNeedsDice, which Engine A proves against every VM case (evaluate: stack effect, block pops, je.dup). Failure atomicity (shared with C03) covers the valid-prefix-plus-garbage inputs.",
+  note="Known findings (witnesses in known_findings.json): break/continue inside if / template / function body, attribute-, item- and slice-assignment used as expressions, and the stale-code findings of C03. The branch behaviour of jne/je/je.dup/jmp and the abstract effect of the ParserData primitives (OffsetPush, OffsetPopAndSet, OffsetJmpSetX, Counter*, BreakSet, ContinueSet, CodePush/Pop) are stated in the analysis and tied to the code by the Engine A contracts of those functions, not derived from their bodies. Operand *types* (code.Value.(T)) per opcode are asserted on the VM side only.",
+  ref="DESIGN.md §3 C08", tech="contract-based: per-rule typing contracts over the extracted PEG table and the typed AST of the actions, discharged by abstract interpretation to a fixpoint (no solver); VM side by SMT"),
+ "C13": dict(
+  text="Proof (partial): compile side — every template/literal alternative of `fstring` leaves exactly one value; AddFormatString receives the number of parts pushed since the matching CounterPush (affine counting through the repetition), every hole contributes exactly one value (fstr.block.pop), nesting is balanced (typed:* obligations of rules fstring, strPart*, fstringStmt*). VM side — ld.fs pops n and pushes one string; fstr.block.pop leaves saved+1 values, pushing the block's last value or the empty string when the block left none; block.pop inside a template pushes the empty string (ghost assertions in evaluate).",
+  note="Not covered: the text of escapes and literal segments (strings are uninterpreted: no statement about `\\n`, quotes or 0x1E), the order of concatenation inside ld.fs beyond the stack effect. Known finding: break/continue inside a template block (C08).",
+  ref="DESIGN.md §3 C13", tech="contract-based: grammar typing contracts (abstract interpretation) + VM ghost assertions discharged by SMT"),
+ "C16": dict(
+  text="Proof: flag dominance on the grammar table — every action that emits an instruction of a dice family (coc.*, wod.*, dc.*, fate) runs only where the family's Enable flag has been tested true on every path from the start rule (facts established by `&{return c.data.Config.F}` predicates, voided by flag writes and FlagsPop, met over all non-look-ahead reference sites, greatest fixpoint); block.push / loops / function definitions / return only where DisableStmts was tested false. Frame: no function reachable from Parse/Run assigns a Context's Config; the parser's Config is a struct copy.",
+  note="The meaning of a predicate is read from its body only when it has the form `return [!]c.data.Config.F`. `est` (st expressions) sets Disable* and restores with FlagsPop; facts are dropped there. Not covered: that a disabled family's letters parse as identifiers (text level).",
+  ref="DESIGN.md §3 C16", tech="contract-based: dominance obligations on the extracted PEG table and frame obligations from the effect pass (no solver)"),
+ "C18": dict(
+  text="Proof (partial): compile side — st.* instructions are emitted only by rules reachable solely through the `\"^st\"` alternative; every alternative of st_assign / st_modify_lead emits exactly one st.* instruction. VM side — each st.* case calls CallbackSt exactly once when a callback is installed and never otherwise, with the documented type string, fresh clones of name and value, and the operator/text of the instruction (ghost call counter and precall assertions in evaluate); `-` normalises through OpNegation with a nil check.",
+  note="Not covered: which text a name token matches and how abutting edits are split (matchers are uninterpreted) — the seeded change of C18 (digits allowed inside st_name2r) is NOT detected. Order of callbacks follows from program order of the emitted instructions (not separately proved).",
+  ref="DESIGN.md §3 C18", tech="contract-based: grammar obligations (reachability, typing) + VM ghost assertions discharged by SMT"),
 }
 
 props = [json.loads(l)["id"] for l in open("/verif/properties.jsonl")]
 NA_REASON = "check not built yet in this round (framework under construction); see DESIGN.md §5 for the build order"
-NA = {}
+NA = {
+ "C12": "not applicable to this family here: ValueMap is built on sync.Mutex, sync/atomic pointers and unsafe-free but lock-free read paths; the sequential half needs a model of atomic.Pointer/atomic.Value cells that dsvc does not have (functions are reported outside the subset by the sweep), and the concurrent half (linearizability) is a property of interleavings that contracts on single calls cannot state",
+}
 
 checks = []
 for pid in props:
